@@ -215,6 +215,9 @@ def run(ctx):
 
             oc = on_every_cycle(wbody, seek_bbs[id(elem[0])])
             ctx.ob("SEEK", "element|every-element", oc is True, f"the element seek is passed on every iteration of the element loop: {oc}; each element must be written at its own computed position", wbody.file, wbody.line)
+        from ..posrule import seeks_from_start_sum_only
+
+        seeks_from_start_sum_only(ctx, "SEEK", wbody, "write_to_buffer", allow_ops=("Mul", "MulWithOverflow"))
         ctx.ob("SEEK", "element", len(elem) == 1 and "Mul" in elem[0].ops, f"writer element seek derives from {sorted(elem[0].names) if elem else None}; must include the same five terms as the reader", wbody.file, wbody.line, sample=True)
         idx = [d for d in seeks if {"index_offsets", "start_index"} <= d.names]
         ctx.ob("SEEK", "indices", len(idx) == 1 and "Mul" in idx[0].ops and (2 in idx[0].consts or any(c.endswith("size_of") for c in idx[0].calls)), f"writer index seek derives from {sorted(idx[0].names) if idx else None}", wbody.file, wbody.line)
